@@ -167,6 +167,15 @@ def _mk_collection(spec):
                 x = x.sum(axis=0) if x.ndim > 1 else x.cumsum(axis=0)
             elif op == "mul":
                 x = x * x
+            elif op == "getitem":       # materialized layer of task-spec nodes
+                x = x[1:] if x.shape[0] > 1 else x[:1]
+            elif op == "rechunk":
+                x = x.rechunk(tuple(max(1, (c[0] + 1) // 2) for c in x.chunks))
+            elif op == "ravel":
+                x = x.ravel()
+            elif op == "concat":
+                import dask.array as da
+                x = da.concatenate([x, x + 1])
         return x
     if kind == "bag":
         import dask.bag as db
@@ -240,6 +249,13 @@ def _okeys(c):
     return set(flatten(c.__dask_keys__()))
 
 
+def _task_okeys(c):
+    """output keys that are computed by a task (data keys are in the cache from the start: no pretask/posttask)"""
+    from dask.core import istask
+    g = c.__dask_graph__()
+    return {k for k in _okeys(c) if istask(g[k])}
+
+
 def case_api(ctx, inp):
     import dask
     from dask.graph_manipulation import bind, checkpoint, clone, wait_on
@@ -273,7 +289,7 @@ def case_api(ctx, inp):
         ctx.branch("clone-" + inp["child"]["kind"])
         return
     parent = _mk_collection(inp["parent"])
-    pkeys = _okeys(parent)
+    pkeys = _task_okeys(parent)
     log = _Log()
     if op == "checkpoint":
         cp = checkpoint(child, parent, split_every=inp.get("split_every"))
@@ -282,7 +298,7 @@ def case_api(ctx, inp):
         if v is not None:
             ctx.fail("checkpoint does not compute to None", observed=repr(v))
         fin = log.pos("start", cp.key)
-        for k in _okeys(child) | pkeys:
+        for k in _task_okeys(child) | _task_okeys(parent):
             e = log.pos("end", k)
             if e is None or fin is None or e > fin:
                 ctx.fail("checkpoint ran before a chunk of its inputs was computed", observed=[repr(k), e, fin])
@@ -296,7 +312,7 @@ def case_api(ctx, inp):
         got = _value(c)
         if got != want:
             ctx.fail("wait_on changes the computed value", observed=got, expected=want)
-        ends = [log.pos("end", k) for k in _okeys(child)]
+        ends = [log.pos("end", k) for k in _task_okeys(child)] or [-1]
         starts = [log.pos("start", k) for k in _okeys(c)]
         if None in ends or None in starts or max(ends) > min(starts):
             ctx.fail("wait_on: a chunk of the result started before all chunks of the input were computed",
@@ -324,7 +340,7 @@ def case_api(ctx, inp):
     if None in pend:
         ctx.fail("bind: a parent chunk was never computed", observed=[repr(k) for k in pkeys if log.pos("end", k) is None][:3])
         return
-    last_parent = max(pend)
+    last_parent = max(pend) if pend else -1
     orig = set(child.__dask_graph__()) | set(parent.__dask_graph__())
     if omit is not None:
         orig |= set(omit.__dask_graph__())
@@ -399,7 +415,7 @@ def _gen_coll(rng, kind=None):
         nd = rng.choice([1, 2])
         shape = [rng.randint(2, 6) for _ in range(nd)]
         return {"kind": "array", "shape": shape, "chunks": [rng.randint(1, s) for s in shape],
-                "ops": [rng.choice(["add", "T", "sum", "mul"]) for _ in range(rng.randint(1, 3))]}
+                "ops": [rng.choice(["add", "T", "sum", "mul", "getitem", "rechunk", "ravel", "concat"]) for _ in range(rng.randint(1, 3))]}
     if kind == "bag":
         return {"kind": "bag", "n": rng.randint(1, 12), "np": rng.randint(1, 4),
                 "ops": [rng.choice(["add", "filter"]) for _ in range(rng.randint(1, 3))]}
